@@ -18,17 +18,22 @@
  the abstract constructor gives back the original values.
  ***************************************************************************)
 EXTENDS Integers, Sequences, FiniteSets, TLC, Json
-CONSTANTS Shapes, AVals, BVals, SVals, LVals, TVals, SubVals, NameVals, RecordHist
+CONSTANTS Shapes, AVals, BVals, SVals, LVals, TVals, SubVals, DVals, NameVals, DefAVals, RecordHist
 
-PNames == {"a", "b", "s", "l", "t", "sub"}
-Default == [a |-> "0", b |-> "4", s |-> "empty", l |-> "empty", t |-> "none", sub |-> "none"]
+PNames == {"a", "b", "s", "l", "t", "sub", "d"}
+\* d: a dictionary whose declared default is non-empty ({"k": 1, "m": 2}); tokens: "default", "empty",
+\* "subset" ({"k": 1}), "changed" ({"k": 1, "m": 3}), "superset"
+Default0 == [a |-> "0", b |-> "4", s |-> "empty", l |-> "empty", t |-> "none", sub |-> "none", d |-> "default"]
 SigDefaultB == "7"
 
-VARIABLES shape, val, name
-vars == <<shape, val, name>>
+VARIABLES shape, val, name,
+          defa     \* the class-level default of `a` in force when the text is produced: "0" as declared, or
+                   \* reassigned on an intermediate class of the hierarchy after a first instance existed
+vars == <<shape, val, name, defa>>
+Default == [Default0 EXCEPT !.a = defa]
 
-Init == /\ shape \in Shapes
-        /\ val \in [a : AVals, b : BVals, s : SVals, l : LVals, t : TVals, sub : SubVals]
+Init == /\ shape \in Shapes /\ defa \in DefAVals
+        /\ val \in [a : AVals, b : BVals, s : SVals, l : LVals, t : TVals, sub : SubVals, d : DVals]
         /\ name \in NameVals
         \* a constructor without **params cannot receive the other parameters: they keep their defaults
         /\ (shape = "closed" => /\ \A p \in PNames \ {"a", "b"} : val[p] = Default[p]
@@ -57,5 +62,5 @@ Rebuilds == Rebuilt = val
 KeywordsOnlyWhenNeeded == \A p \in Keywords \ {"name", "b"} : val[p] # Default[p]
 
 Emit == RecordHist =>
-  PrintT(<<"BEHAVIOUR", ToJson([shape |-> shape, val |-> val, name |-> name, positional |-> Positional, keywords |-> Keywords])>>)
+  PrintT(<<"BEHAVIOUR", ToJson([shape |-> shape, val |-> val, name |-> name, defa |-> defa, positional |-> Positional, keywords |-> Keywords])>>)
 =============================================================================
